@@ -25,6 +25,7 @@ from typing import Any
 
 from happysimulator.core.entity import Entity
 from happysimulator.core.event import Event
+from happysimulator.core.sim_future import SimFuture
 
 logger = logging.getLogger(__name__)
 
@@ -161,10 +162,12 @@ class Semaphore(Entity):
         self._contentions += 1
         enqueue_time = self._clock.now.nanoseconds if self._clock else 0
 
-        acquired = [False]
+        # Park on a future resolved by the wake-up; polling with zero delays
+        # would keep the clock frozen forever.
+        granted = SimFuture()
 
         def on_wake():
-            acquired[0] = True
+            granted.resolve(None)
 
         waiter = _Waiter(count=count, callback=on_wake, enqueue_time_ns=enqueue_time)
         self._waiters.append(waiter)
@@ -173,8 +176,7 @@ class Semaphore(Entity):
         if len(self._waiters) > self._peak_waiters:
             self._peak_waiters = len(self._waiters)
 
-        while not acquired[0]:
-            yield 0.0
+        yield granted
 
         self._acquisitions += count
 
